@@ -17,13 +17,19 @@ import (
 // generator (PEP 508 name / extras / versionspec / quoted_marker)
 
 type rgen struct {
-	rng *rand.Rand
-	mg  *mgen
+	rng    *rand.Rand
+	mg     *mgen
+	spaces bool // this string uses spaces only
 }
 
 func (g *rgen) pick(ss ...string) string { return ss[g.rng.Intn(len(ss))] }
 
-func (g *rgen) ws() string { return g.pick("", "", " ", " ", "  ", "\t", " \t", "\t ") }
+func (g *rgen) ws() string {
+	if g.spaces {
+		return g.pick("", "", " ", " ", "  ", "   ")
+	}
+	return g.pick("", "", " ", " ", "  ", "\t", " \t", "\t ")
+}
 
 const alnum = "abcdefghijklmnopqrstuvwxyzABCDEFGHIJKLMNOPQRSTUVWXYZ0123456789"
 
@@ -96,7 +102,7 @@ func (g *rgen) clause() string {
 	case "===":
 		// Arbitrary equality: any run of non-space characters of the PEP 508
 		// version alphabet, then mandatory whitespace (see Assumptions).
-		v = g.pick("1.0", "foo", "1.0-beta_x", "2.0+ubuntu.1", "LATEST", "1.*") + g.pick(" ", "  ", "\t")
+		v = g.pick("1.0", "foo", "1.0-beta_x", "2.0+ubuntu.1", "LATEST", "1.*") + g.pick(" ", "  ", " ")
 		return op + g.ws() + v
 	case "==", "!=":
 		switch r.Intn(6) {
@@ -136,6 +142,7 @@ func (g *rgen) spec() string {
 
 func (g *rgen) req() string {
 	r := g.rng
+	g.spaces = r.Intn(5) < 2
 	var sb strings.Builder
 	sb.WriteString(g.ws() + g.ident(4) + g.ws() + g.extras() + g.ws() + g.spec())
 	if r.Intn(2) == 0 {
@@ -307,6 +314,8 @@ func checkReqs(r *ev.Run, strs []string, origin string, report reporter) {
 		}
 		if strings.Contains(s, "\t") {
 			r.Count("req_with_tab", 1)
+		} else {
+			r.Count("req_without_tab", 1)
 		}
 		if k >= 2 {
 			r.Nontrivial("r\x00" + s)
@@ -458,6 +467,7 @@ func runRequirements(r *ev.Run, env map[string]string) {
 	r.Gate("req_with_arbitrary_equality", int64(n/100))
 	r.Gate("req_with_marker", int64(n/10))
 	r.Gate("req_with_tab", int64(n/10))
+	r.Gate("req_without_tab", int64(n/10))
 	r.Gate("req_marker_truth_vectors_compared", int64(n/10))
 	r.Gate("names", int64(n/10))
 	r.Gate("names_with_runs", int64(n/100))
